@@ -232,8 +232,71 @@ func genC04(tier string, r *rng) {
 	}
 }
 
+// emitOrderSensitive: inputs that SEVERAL table rows accept (a reserved-name SSH file is also a public key line; a
+// public key line is also the first line of an authorized_keys file) after inputs of the later row's kind, and the other
+// way round: whatever the program remembers about "the kind of the previous file" must not choose the description.
+func emitOrderSensitive(r *rng) {
+	lines := sshKeyLines()
+	pub := []byte(lines[0] + " me@host\n")
+	ak := []byte(lines[0] + " a@b\n" + lines[1%len(lines)] + " c@d\n" + lines[2%len(lines)] + "\n")
+	kh := []byte("example.com,10.0.0.1 " + lines[0] + "\nhost2 " + lines[1%len(lines)] + "\n")
+	type nd struct {
+		name string
+		data []byte
+	}
+	items := []nd{{"id_ed25519.pub", pub}, {"authorized_keys", ak}, {"known_hosts", kh}, {"x.pub", ak}, {"authorized_keys", pub}, {"keys.txt", ak}, {"known_hosts", pub}}
+	for i, a := range items {
+		for j, b := range items {
+			if i != j {
+				emit("seq", "3", hxs(a.name), hx(a.data), hxs(b.name), hx(b.data), hxs(a.name), hx(a.data))
+			}
+		}
+	}
+}
+
+// emitRejectedThenGood: OpenPGP keys the reader REJECTS half-way through a verification (an encrypt-only RSA subkey whose
+// binding signature claims the signing flag and carries an embedded cross-signature; a self-signature with a wrong hash
+// prefix; a truncated key), each followed by well-formed keys using the same digest: state left behind by the rejected
+// key (hash objects, caches) must not reach the next one
+func emitRejectedThenGood(r *rng) {
+	fs := pgpKeyFactories()
+	ids := []pgpIdentity{{name: "Good <g@example.org>", flags: 3, sigCreated: 1700000000, lifetime: -1}}
+	mk := func(fi int, created uint32) []byte {
+		return pgpArmor("PGP PUBLIC KEY BLOCK", buildPGP(fs[fi](created), ids, nil, false).binary)
+	}
+	var rejected [][]byte
+	for _, fi := range []int{0, 3, 6 % len(fs)} {
+		p := fs[fi](1700000000)
+		sk := fs[0](1700000100)
+		enc := *sk
+		enc.body = append([]byte{}, sk.body...)
+		enc.body[5] = 2 // the KEY PACKET says RSA encrypt-only; the embedded cross-signature keeps algorithm 1 (a signature packet naming algorithm 2 is refused before anything is verified)
+		bad := buildPGP(p, ids, []pgpSubkey{{key: &enc, flags: 0x0e, sigCreated: 1700000200, lifetime: -1}}, false)
+		rejected = append(rejected, pgpArmor("PGP PUBLIC KEY BLOCK", bad.binary), bad.binary)
+		g := buildPGP(p, ids, nil, false)
+		if len(g.regions) > 0 {
+			m := append([]byte{}, g.binary...)
+			for _, reg := range g.regions {
+				if reg.kind == "prefix" {
+					m[reg.lo] ^= 0xff
+					break
+				}
+			}
+			rejected = append(rejected, pgpArmor("PGP PUBLIC KEY BLOCK", m), pgpArmor("PGP PUBLIC KEY BLOCK", g.binary[:len(g.binary)-7]))
+		}
+	}
+	for _, bad := range rejected {
+		for _, fi := range []int{0, 3} {
+			g1, g2 := mk(fi, 1700000001), mk(fi, 1700000002)
+			emit("seq", "4", hxs("g1.asc"), hx(g1), hxs("bad.asc"), hx(bad), hxs("g2.asc"), hx(g2), hxs("g1.asc"), hx(g1))
+		}
+	}
+}
+
 func genC09(tier string, r *rng) {
 	emitSignedByKnownKey(r.fork())
+	emitOrderSensitive(r.fork())
+	emitRejectedThenGood(r.fork())
 	var pool []sample
 	for _, s := range fixtures() {
 		if len(s.data) < 8192 {
